@@ -19,8 +19,19 @@ package stringy
 //@   loop 1 invariant -1 <= rangeindex && rangeindex < len(a.user.Commands)
 //@   loop 2 invariant -1 <= rangeindex && rangeindex < len(c.Match)
 
-//@ func (sa SessionBasedAuthorizer) evaluate() (args []string, status tq.AuthorStatus)
-//@   unverified policy evaluation is the subject of C11
+// Session path (C11): the connection's scope takes part in the match conditions as an
+// injected "scope=<localized scope>" argument. serviceMatcher keeps the LAST value per
+// attribute, so the injected argument must be the last element of the list it is given —
+// whatever the client sent (duplicates of it included).
+//@ func (sa SessionBasedAuthorizer) evaluate() (res []string, st tq.AuthorStatus)
+//@   requires sa.loggerProvider != nil
+//@   modifies ghost.scopeArg
+//@   loop 1 invariant -1 <= rangeindex && rangeindex < len(sa.user.Services)
+//@   loop 1 invariant[C11] len(args) >= 1 && seqof(args[len(args) - 1]) == ghost.scopeArg
+
+//@ func (sa SessionBasedAuthorizer) serviceMatcherModifier(args []string, c config.Service) (avps []string, optional bool)
+//@   unverified per-service evaluation (strings, closures) is outside the generator's subset; the positional pre-condition is what callers must establish
+//@   requires[C11] len(args) >= 1 && seqof(args[len(args) - 1]) == ghost.scopeArg
 
 //@ func (a Authorizer) Handle(response tq.Response, request tq.Request)
 //@   implements tq.Handler.Handle
